@@ -31,7 +31,7 @@ type captureInject struct {
 	AtPoint  int  // index among the compaction points of the run
 	Shutdown bool // instead of a burst: a graceful shutdown of the node is started while that call is being made
 	Burst    []SeqOp
-	OpIndex int // out: index of the history op during which the burst was injected (-1: never reached)
+	OpIndex  int // out: index of the history op during which the burst was injected (-1: never reached)
 }
 
 func runCapture(cfg hapi.Config, hist []SeqOp, everyPoint bool) *captured {
